@@ -8,6 +8,15 @@ pub(crate) struct JoinState<T> {
     finished: bool,
     abort: bool,
 }
+impl<T> JoinState<T> {
+    /// Stores the result WITHOUT dropping the previous value (always `None`): the drop glue of
+    /// `Option<Result<T, _>>` for `T = Result<(), Box<dyn Error>>` walks every error type's
+    /// destructor when the discriminant is not a constant for CBMC.
+    fn finish(&mut self, r: Result<T, JoinError>) {
+        unsafe { std::ptr::write(&mut self.result, Some(r)) };
+        self.finished = true;
+    }
+}
 /// The state block is leaked (never freed): handles and tasks refer to it by raw pointer.
 pub struct JoinHandle<T> {
     st: *mut JoinState<T>,
@@ -27,7 +36,10 @@ impl<T> Future for JoinHandle<T> {
         let p = self.st;
         let st = unsafe { &mut *p };
         if st.finished {
-            match st.result.take() {
+            // moved out without leaving a value to drop
+            let r = unsafe { std::ptr::read(&st.result) };
+            unsafe { std::ptr::write(&mut st.result, None) };
+            match r {
                 Some(r) => Poll::Ready(r),
                 None => panic!("tokio model: JoinHandle polled after completion"),
             }
@@ -90,8 +102,7 @@ impl<F: Future> Future for TaskFut<F> {
         if st.abort && !st.finished {
             unsafe { std::mem::ManuallyDrop::drop(&mut this.fut) };
             this.live = false;
-            st.result = Some(Err(JoinError { cancelled: true }));
-            st.finished = true;
+            st.finish(Err(JoinError { cancelled: true }));
             return Poll::Ready(());
         }
         let r = unsafe { Pin::new_unchecked(&mut *this.fut) }.poll(cx);
@@ -99,8 +110,7 @@ impl<F: Future> Future for TaskFut<F> {
             Poll::Ready(v) => {
                 unsafe { std::mem::ManuallyDrop::drop(&mut this.fut) };
                 this.live = false;
-                st.result = Some(Ok(v));
-                st.finished = true;
+                st.finish(Ok(v));
                 Poll::Ready(())
             }
             Poll::Pending => Poll::Pending,
@@ -115,8 +125,7 @@ impl<F: Future> Drop for TaskFut<F> {
         }
         let st = unsafe { &mut *self.st };
         if !st.finished {
-            st.result = Some(Err(JoinError { cancelled: true }));
-            st.finished = true;
+            st.finish(Err(JoinError { cancelled: true }));
         }
     }
 }
